@@ -93,6 +93,26 @@ func checkValue(c *mc.Ctx, g orb.Geometry) {
 	if !orb.Equal(g, g) {
 		c.Failf("equal-reflexive", "orb.Equal(g, g) is false | %s", desc)
 	}
+	// values that share memory with g but differ from it: a shorter or shifted view of one of its point lists or
+	// member lists. Equal is structural: sharing the first element's address proves nothing about the lengths.
+	for _, w := range views(g) {
+		want := refgeom.Equal(g, w)
+		if orb.Equal(g, w) != want || orb.Equal(w, g) != want {
+			c.Failf("equal-aliased", "orb.Equal(g, view) = %v / %v, structurally %v, for the view %v that shares g's memory | %s", orb.Equal(g, w), orb.Equal(w, g), want, w, desc)
+			break
+		}
+	}
+	// the same value laid out as windows of one shared buffer: read-only calls must not write past their slices
+	if wg, verify := refgeom.Windowed(g); wg != nil {
+		wc := orb.Clone(wg)
+		eq := orb.Equal(wg, g)
+		wb := wg.Bound()
+		if d := verify(); d != "" {
+			c.Failf("read-only", "Clone/Equal/Bound on the windowed layout: %s | %s", d, desc)
+		} else if !eq || refgeom.Struct(wc) != refgeom.Struct(orb.Clone(g)) || wb != g.Bound() {
+			c.Failf("layout-dependent", "Clone/Equal/Bound give other results when the slices of the value share one buffer (equal=%v clone=%v bound=%v) | %s", eq, wc, wb, desc)
+		}
+	}
 	// Bound: tight box of the vertices, empty iff there are none
 	got := g.Bound()
 	want, has := refgeom.TightBound(g)
@@ -156,6 +176,76 @@ func checkValue(c *mc.Ctx, g orb.Geometry) {
 	if has {
 		c.NonTrivial()
 	}
+}
+
+// views returns geometries of the same kind as g that share memory with it and differ from it in one length.
+func views(g orb.Geometry) []orb.Geometry {
+	var out []orb.Geometry
+	pv := func(ps []orb.Point) [][]orb.Point {
+		if len(ps) < 2 {
+			return nil
+		}
+		return [][]orb.Point{ps[:len(ps)-1], ps[1:], ps[:1]}
+	}
+	switch v := g.(type) {
+	case orb.MultiPoint:
+		for _, w := range pv(v) {
+			out = append(out, orb.MultiPoint(w))
+		}
+	case orb.LineString:
+		for _, w := range pv(v) {
+			out = append(out, orb.LineString(w))
+		}
+	case orb.Ring:
+		for _, w := range pv(v) {
+			out = append(out, orb.Ring(w))
+		}
+	case orb.Polygon:
+		if len(v) >= 2 {
+			out = append(out, v[:len(v)-1], v[1:])
+		}
+		for i := range v {
+			for _, w := range pv(v[i]) {
+				cp := append(orb.Polygon{}, v...)
+				cp[i] = orb.Ring(w)
+				out = append(out, cp)
+			}
+		}
+	case orb.MultiLineString:
+		if len(v) >= 2 {
+			out = append(out, v[:len(v)-1], v[1:])
+		}
+		for i := range v {
+			for _, w := range pv(v[i]) {
+				cp := append(orb.MultiLineString{}, v...)
+				cp[i] = orb.LineString(w)
+				out = append(out, cp)
+			}
+		}
+	case orb.MultiPolygon:
+		if len(v) >= 2 {
+			out = append(out, v[:len(v)-1], v[1:])
+		}
+		for i := range v {
+			for _, w := range views(v[i]) {
+				cp := append(orb.MultiPolygon{}, v...)
+				cp[i] = w.(orb.Polygon)
+				out = append(out, cp)
+			}
+		}
+	case orb.Collection:
+		if len(v) >= 2 {
+			out = append(out, v[:len(v)-1], v[1:])
+		}
+		for i := range v {
+			for _, w := range views(v[i]) {
+				cp := append(orb.Collection{}, v...)
+				cp[i] = w
+				out = append(out, cp)
+			}
+		}
+	}
+	return out
 }
 
 func kindOf(g orb.Geometry) string {
